@@ -123,16 +123,20 @@ func mergeToWriter(segments []*Segment, drops []*roaring.Bitmap,
 		return nil, nil, segment.ErrClosed
 	}
 
+	// The stored section (and with it the document number mapping) is written
+	// even when no document survives: the reader expects the stored index and
+	// its chunk trailer in every file, and DocumentNumbers() reports one slice
+	// per input segment.
 	var storedIndexOffset uint64
 	var fieldDocs, fieldFreqs map[uint16]uint64
 	var dictLocs []uint64
-	if numDocs > 0 {
-		storedIndexOffset, newDocNums, err = mergeStoredAndRemap(segments, drops,
-			fieldsMap, fieldsInv, fieldsSame, numDocs, cr, closeCh)
-		if err != nil {
-			return nil, nil, err
-		}
+	storedIndexOffset, newDocNums, err = mergeStoredAndRemap(segments, drops,
+		fieldsMap, fieldsInv, fieldsSame, numDocs, cr, closeCh)
+	if err != nil {
+		return nil, nil, err
+	}
 
+	if numDocs > 0 {
 		dictLocs, fieldDocs, fieldFreqs, docValueOffset, err = persistMergedRest(segments, drops,
 			fieldsInv, fieldsMap,
 			newDocNums, numDocs, chunkMode, cr, closeCh)
